@@ -1,6 +1,7 @@
 (* Driver entry for the designer front-end model (C04, C05, C15). *)
 From Coq Require Import List String Ascii Arith Bool.
-From PC Require Import Base.Sexp Comp.Syntax Design.Designer Design.DesignerProofs Run.RComp.
+From Coq Require Import ZArith.
+From PC Require Import Base.Sexp Comp.Syntax Design.Designer Design.DesignerProofs SSM.Contract Run.RComp.
 Import ListNotations.
 Local Open Scope string_scope.
 
@@ -21,6 +22,32 @@ Definition run_design (req : sexp) : sexp :=
       | Some ls, Some so =>
           match design_arrays ls so with
           | DOk eq wc st => Li [At "ok"; sL (sO sN) eq; sL (sO sN) wc; sL s_ochar st; sB (closed_flag ls so)]
+          | DOver => Li [At "over"]
+          | DErr k => Li [At "err"; At k]
+          end
+      | _, _ => bad_request
+      end
+  | _ => bad_request
+  end.
+
+(* C05: the contract predicate on the parsed contents of real .eq / .wc / .st files, and the
+   model's prediction of those contents *)
+Definition run_contract (req : sexp) : sexp :=
+  match req with
+  | Li [eq; wc; At st] =>
+      match dL dZ eq, dL dZ wc with
+      | Some e, Some w => sB (contract_ok e w (chars st))
+      | _, _ => bad_request
+      end
+  | _ => bad_request
+  end.
+Definition run_files (req : sexp) : sexp :=
+  match req with
+  | Li [lines; so] =>
+      match dL d_pline lines, dB so with
+      | Some ls, Some so =>
+          match design_arrays ls so with
+          | DOk eq wc st => Li [At "ok"; sL (fun x => sZ (eq_map x)) eq; sL (fun x => sZ (wc_map x)) wc; At (unchars (map st_map st))]
           | DOver => Li [At "over"]
           | DErr k => Li [At "err"; At k]
           end
